@@ -99,6 +99,12 @@ def gen_cases(rng, pid, tier):
                 cases.append({'stream': 'abc-spelling', 'ann': a3, 'val': w, 'ctx': G.CTX, 'obs': 'avmt', 'grp': grp})
         if rng.random() < 0.15:     # an arbitrary value: exercises the rejecting paths without any bias of `corrupt`
             cases.append({'stream': 'random-value', 'ann': a, 'val': rng.choice(G.SCALARS + G.CONTAINERS), 'ctx': G.CTX, 'obs': 'avmt', 'grp': grp})
+    for c in cases:
+        # the thread the call is made from is no input of the verdict: a share of the cases is observed from a thread
+        # started for the call (implementation only; model and specification do not know threads)
+        if c['stream'] in ('valid', 'near-miss', 'respell') and rng.random() < 0.10:
+            c['thread'] = True
+    state_cases(rng, pid, tier, cases)
     if P['bare']:
         vals = G.SCALARS + G.CONTAINERS
         forms = [['bare', n] for n in BARE_T] + [['cls', n] for n in BARE_B]
@@ -110,6 +116,148 @@ def gen_cases(rng, pid, tier):
                 for obs in ('avmt', 'pedantic') if rng.random() < 0.25 else ('avmt',):
                     cases.append({'stream': 'bare', 'ann': f, 'val': v, 'ctx': G.CTX, 'obs': obs, 'grp': len(cases), 'nested': f in nested})
     return cases
+
+
+FLAGS = {}
+
+
+def source_flags():
+    """what the translator found about the shape of the source on this run (emitted into Gen/CheckerTables.v; the committed
+    baseline - all false - stands in when the translation failed)"""
+    import re
+    try:
+        txt = open(os.path.join(COQ, 'Gen', 'CheckerTables.v'), encoding='utf-8').read()
+    except OSError:
+        return {}
+    return {k: bool(re.search(k + r'\s*(?::\s*bool\s*)?:=\s*true\b', txt)) for k in ('plain_class_complete', 'newtype_test_by_class')}
+
+
+def state_cases(rng, pid, tier, cases):
+    """streams over what must NOT influence the verdict (gen_checker.py, last section): model and specification are evaluated
+    on (annotation, final value, context) as always; the extra keys steer the implementation worker only.
+      fwd-state        the ForwardRef objects of the annotation were evaluated by typing.get_type_hints in another namespace
+      default-history  the value is a mutable DEFAULT, changed in place between calls that leave the parameter out
+      class-deco       the user classes carry names of typing / collections exports and attribute annotations of any kind"""
+    P = PROFILE[pid]
+    t = 0 if tier == 'quick' else 1
+    n, dmax = P['n'][t], min(P['depth'][t], 4)
+
+    def pick_obs(a, star=True):
+        r = rng.random()
+        if r < 0.45:
+            return 'avmt'
+        if r < 0.70:
+            return 'pedantic'
+        if r < 0.80 and star:
+            return 'pedantic_star'
+        return 'dataclass' if a[0] not in ('none', 'str') else 'avmt'
+
+    def thread():
+        return {'thread': True} if rng.random() < 0.10 else {}
+    for _ in range(max(8, n // 10)):
+        g = G.gen_fwd_state(rng, rng.choice(range(0, dmax + 1)))
+        if g is None:
+            continue
+        a, v, alt, v_alt = g
+        obs, grp = pick_obs(a), len(cases)
+        for val in (v, v_alt):
+            if val is not None:
+                cases.append(dict({'stream': 'fwd-state', 'ann': a, 'val': val, 'ctx': G.CTX, 'pre': alt, 'obs': obs, 'grp': grp}, **thread()))
+    for _ in range(max(6, n // 12)):
+        g = G.gen_default_history(rng, rng.choice(range(1, dmax + 1)))
+        if g is None:
+            continue
+        a, v, w = g
+        grp = len(cases)
+        base = {'stream': 'default-history', 'obs': 'pedantic_default', 'ann': a, 'ctx': G.CTX, 'grp': grp}
+        cases.append(dict(base, val0=v, val=w, **thread()))              # accepted with the default, then the default stops conforming
+        cases.append(dict(base, val0=w, val=v, **thread()))              # rejected with the default, then the default is repaired
+        if rng.random() < 0.3:
+            cases.append(dict(base, val0=v, hist=[w], val=v))
+            cases.append(dict(base, val0=w, hist=[v], val=w))
+    names = G.class_names(FLAGS)
+    for _ in range(max(10, n // 6)):
+        a = G.gen_with(rng, rng.choice(range(0, dmax + 1)), G.has_user_cls)
+        if a is None:
+            continue
+        v = G.gen_conf(rng, a)
+        if v is None:
+            continue
+        w = G.corrupt(rng, a, v)
+        deco, obs, grp = G.gen_class_deco(rng, names, G.user_paths(a, v, w)), pick_obs(a), len(cases)
+        if not deco:
+            continue
+        cases.append(dict({'stream': 'class-deco', 'ann': a, 'val': v, 'ctx': G.CTX, 'clsdeco': deco, 'obs': obs, 'grp': grp}, **thread()))
+        if w is not None:
+            cases.append({'stream': 'class-deco', 'ann': a, 'val': w, 'ctx': G.CTX, 'clsdeco': deco, 'obs': obs, 'grp': grp})
+
+
+STATE_KEYS = ('clsdeco', 'thread', 'hist')
+
+
+def simpler_states(c):
+    """the case with less of its state: one renamed class / one attribute annotation only, no thread, no intermediate history"""
+    out = []
+    for keep_thread in (False, True):
+        if keep_thread and not c.get('thread'):
+            continue
+        b = {k: v for k, v in c.items() if k not in ('thread', 'hist', 'twin', 'twin_case')}
+        if keep_thread:
+            b['thread'] = True
+        if c.get('clsdeco'):
+            for p, d in c['clsdeco']:
+                if d.get('name'):
+                    out.append(dict(b, clsdeco=[[p, {'name': d['name']}]]))
+                for at in d.get('attrs') or []:
+                    out.append(dict(b, clsdeco=[[p, {'attrs': [at]}]]))
+            out.append({k: v for k, v in b.items() if k != 'clsdeco'})
+        elif not keep_thread and (c.get('thread') or c.get('hist')):
+            out.append(b)
+    return out
+
+
+def shrink_state(ck, judge, found, limit=4):
+    """replace the (at most `limit`, smallest first) failing inputs that carry state by the simplest variant that still fails;
+    model and specification do not depend on the state, so their verdicts are reused"""
+    def final_key(f):          # the order the failing inputs are reported in (smallest first = the replay)
+        case = ck.violations[f[0]]['case']
+        return (len(json.dumps(case.get('reified', case))), len(json.dumps(case, default=str)))
+    found = sorted((f for f in found if f[0] < len(ck.violations)), key=final_key)[:limit]
+    cand = [(f, c2) for f in found for c2 in simpler_states(f[1])]
+    if not cand:
+        return
+    res = ck.run_impl('w_checker', [c2 for _, c2 in cand], timeout=600, shards=min(8, len(cand)))
+    done = set()
+    for ((vi, c, M, S, sup), c2), r in sorted(zip(cand, res), key=lambda x: len(json.dumps(x[0][1], default=str))):
+        if vi in done or r is None or 'error' in r or 'out' not in r or r['out'] == 9:
+            continue
+        if 'twin' in c:
+            continue          # a pair comparison: keep the pair as found
+        what = judge(ck, c2, r, r['out'], M, S, sup)
+        if what and ck.violations[vi].get('case', {}).get('grp') == c.get('grp'):
+            v = ck.violations[vi]
+            v['what'] = what + dimension_note(c2)
+            v['case'] = dict(c2, reified={'ann': r['ann'], 'val': r['val']}, _I=r['out'], _M=M)
+            v['impl'] = {'out': OUT_NAMES.get(r['out'], r['out']), 'exc': r.get('exc'), 'body_ran': r.get('body_ran')}
+            done.add(vi)
+
+
+def dimension_note(c):
+    """the part of the case that is no (annotation, value) but was needed to see the failure"""
+    out = []
+    if c.get('pre'):
+        out.append('typing.get_type_hints had evaluated the ForwardRef objects of the annotation in another namespace: '
+                   + ', '.join(f'U{n} -> {cl[1] if isinstance(cl, list) else cl}' for n, cl in c['pre']))
+    if c.get('obs') == 'pedantic_default':
+        out.append(f'the value is the DEFAULT of the parameter, changed in place (from {json.dumps(c.get("val0"))[:120]}'
+                   f'{" via " + json.dumps(c["hist"])[:80] if c.get("hist") else ""}) after earlier calls that left the parameter out')
+    if c.get('clsdeco'):
+        out.append('user classes of the case: ' + '; '.join(
+            f'{"U" + "_".join(map(str, p))}' + (f' is named {d["name"]}' if d.get('name') else '') +
+            (f' carries the attribute annotations {json.dumps(d["attrs"])}' if d.get('attrs') else '') for p, d in c['clsdeco']))
+    if c.get('thread'):
+        out.append('the call was made from another thread')
+    return (' [' + ' | '.join(out) + ']') if out else ''
 
 
 def coq_case(c, r):
@@ -141,21 +289,31 @@ def named_stream(ck, want):
     ck.coverage['named_tuple_table'] = {'cases': n, 'judged_as': want}
 
 
+def replay_rows(ck, obs, n):
+    """the rows of a fixed table: each from the main thread and from a thread started for the call; a replay runs its row only"""
+    rc = (getattr(ck, 'replay_case', None) or {})
+    if rc.get('obs') == obs:
+        return [{k: v for k, v in rc.items() if k in ('obs', 'i', 'thread')}]
+    return [{'obs': obs, 'i': i} for i in range(n)] + [{'obs': obs, 'i': i, 'thread': True} for i in range(n)]
+
+
 def gclass_stream(ck):
     """generic @pedantic_class classes of several base layouts (C08: nothing but PedanticException from the machinery)"""
     n = ck.run_impl('w_checker', [{'obs': 'gclass', 'size': 1}], shards=1)[0]['size']
-    res = ck.run_impl('w_checker', [{'obs': 'gclass', 'i': i} for i in range(n)], shards=1)
+    todo = replay_rows(ck, 'gclass', n)
+    res = ck.run_impl('w_checker', todo, shards=2 if len(todo) > n else 1)
     hist = {}
-    for i, r in enumerate(res):
+    for c, r in zip(todo, res):
+        i = c['i']
         if r is None or 'error' in r:
             ck.oblige('impl-worker:gclass', 'correspondence', False, str(r))
             continue
-        ck.note_case('gclass-%d' % i, nontrivial=True)
+        ck.note_case('gclass-%d%s' % (i, '-thread' if c.get('thread') else ''), nontrivial=True)
         hist[OUT_NAMES.get(r['out'], str(r['out']))] = hist.get(OUT_NAMES.get(r['out'], str(r['out'])), 0) + 1
         if r['out'] in (4, 5):
-            ck.violation(f'{r.get("exc")} escaped from a method call on an instance of a generic @pedantic_class: ' + r['name'],
-                         {'obs': 'gclass', 'i': i, 'stream': 'gclass', 'name': r['name']}, stream='gclass', extra={'impl': r})
-    ck.coverage['generic_class_stream'] = {'cases': n, 'outcomes': hist}
+            ck.violation(f'{r.get("exc")} escaped from a method call on an instance of a generic @pedantic_class: ' + r['name'] + dimension_note(c),
+                         dict(c, stream='gclass', name=r['name']), stream='gclass', extra={'impl': r})
+    ck.coverage['generic_class_stream'] = {'cases': len(todo), 'outcomes': hist}
 
 
 def abc_table_obligation(ck):
@@ -195,17 +353,19 @@ def intro_obligation(ck, cases):
 def corner_stream(ck):
     """C08, wrapper half: keyword calls on callables that trip the source-text / receiver heuristics of the wrapper"""
     n = ck.run_impl('w_checker', [{'obs': 'corner', 'size': 1}], shards=1)[0]['size']
-    res = ck.run_impl('w_checker', [{'obs': 'corner', 'i': i} for i in range(n)], shards=1)
+    todo = replay_rows(ck, 'corner', n)
+    res = ck.run_impl('w_checker', todo, shards=2 if len(todo) > n else 1)
     hist = {}
-    for i, r in enumerate(res):
+    for c, r in zip(todo, res):
+        i = c['i']
         if r is None or 'error' in r:
             ck.oblige('impl-worker:corner', 'correspondence', False, str(r))
             continue
-        ck.note_case('corner-%d' % i, nontrivial=True)
-        hist[r['name']] = OUT_NAMES.get(r['out'], str(r['out']))
+        ck.note_case('corner-%d%s' % (i, '-thread' if c.get('thread') else ''), nontrivial=True)
+        hist[r['name'] + (' (thread)' if c.get('thread') else '')] = OUT_NAMES.get(r['out'], str(r['out']))
         if r['out'] in (4, 5):
-            ck.violation(f'{r.get("exc")} escaped from the wrapper: ' + r['name'],
-                         {'obs': 'corner', 'i': i, 'stream': 'corner', 'name': r['name'], 'exc_class': (r.get('exc') or '').split(':')[0]},
+            ck.violation(f'{r.get("exc")} escaped from the wrapper: ' + r['name'] + dimension_note(c),
+                         dict(c, stream='corner', name=r['name'], exc_class=(r.get('exc') or '').split(':')[0]),
                          stream='corner', extra={'impl': r}, matcher=matcher)
     ck.coverage['wrapper_corner_table'] = hist
 
@@ -232,7 +392,11 @@ def matcher(f, case):
 
 def run(pid, tier, seed, replay, props, judge, extra_streams=None, rule_extra='', extra_units=()):
     ck = Check(pid, tier, seed, UNITS + list(extra_units), MODEL, props)
+    ck.replay_case = (replay or {}).get('case') if replay is not None else None
     ck.prepare()
+    FLAGS.clear()
+    FLAGS.update(source_flags())
+    ck.coverage['source_shape_flags'] = dict(FLAGS)
     if tier == 'thorough' and replay is None and props and getattr(ck, 'props_ok', False):
         mod = 'PV.' + props[:-2].replace('/', '.')
         rc, out, err, dt = sh(['coqchk', '-silent', '-o', '-Q', '.', 'PV', mod], cwd=COQ, timeout=3000)
@@ -278,11 +442,14 @@ def run(pid, tier, seed, replay, props, judge, extra_streams=None, rule_extra=''
         if zq != 0:
             na, nv = ck.run_impl('w_checker', [{'obs': 'zoo_sizes'}], shards=1)[0]['sizes']
             allz = [(i, j) for i in range(na) for j in range(nv)]
-            pick = allz if zq is None else ck.rng.sample(allz, min(len(allz), zq * n_scale))
+            # the intensified search (a broken proof / translation obligation) sweeps the whole zoo instead of most of it
+            pick = allz if zq is None or zq * n_scale >= len(allz) // 2 else ck.rng.sample(allz, zq * n_scale)
             for (i, j) in pick:
                 zoo_cases.append({'obs': 'zoo', 'ai': i, 'vi': j, 'stream': 'zoo'})
             for (i, j) in ck.rng.sample(allz, min(len(allz), (600 if tier == 'quick' else 6000))):
                 zoo_cases.append({'obs': ck.rng.choice(['zoo_arg', 'zoo_ret', 'zoo_gen']), 'ai': i, 'vi': j, 'stream': 'zoo-pedantic'})
+                if ck.rng.random() < 0.10:
+                    zoo_cases[-1]['thread'] = True
     if extra_streams:
         extra_streams(ck, cases)
     impl = ck.run_impl('w_checker', cases, timeout=1200)
@@ -295,6 +462,7 @@ def run(pid, tier, seed, replay, props, judge, extra_streams=None, rule_extra=''
     mres = {k: m for k, m in zip(ok_idx, model)}
     hist = {'stream': {}, 'depth': {}, 'impl_outcome': {}, 'spec_verdict': {}, 'supported': 0, 'obs': {}, 'value_size': {}}
     disagreements, lost = [], 0
+    state_found = []
     by_grp = {}
     for k, c in enumerate(cases):
         r, m = impl[k], mres.get(k)
@@ -321,6 +489,9 @@ def run(pid, tier, seed, replay, props, judge, extra_streams=None, rule_extra=''
         by_grp[(c['grp'], c['stream'], k)] = info
         what = judge(ck, c, r, I, M, S, sup)
         if what:
+            what += dimension_note(c)
+            if any(c.get(x) for x in STATE_KEYS):
+                state_found.append((len(ck.violations), c, M, S, sup))
             ck.violation(what, dict(c, reified={'ann': r['ann'], 'val': r['val']}, _I=I, _M=M), stream=c['stream'], matcher=matcher,
                          extra={'impl': {'out': OUT_NAMES.get(I, I), 'exc': r.get('exc'), 'body_ran': r.get('body_ran')},
                                 'model_out': OUT_NAMES.get(M, M), 'spec': {0: 'Unspec', 1: 'Must', 2: 'MustNot'}[S], 'supported': bool(sup)})
@@ -338,9 +509,14 @@ def run(pid, tier, seed, replay, props, judge, extra_streams=None, rule_extra=''
         zhist[OUT_NAMES.get(r['out'], str(r['out']))] = zhist.get(OUT_NAMES.get(r['out'], str(r['out'])), 0) + 1
         what = judge(ck, c, r, r['out'], None, 0, 0)
         if what:
+            what += dimension_note(c)
             ck.violation(what, dict(c, name=r.get('name'), value_type=r.get('val')), stream=c['stream'],
                          extra={'impl': {'out': OUT_NAMES.get(r['out'], r['out']), 'exc': r.get('exc')}})
-    ck.violations.sort(key=lambda v: (len(json.dumps(v['case'].get('reified', v['case']))),))
+    try:
+        shrink_state(ck, judge, state_found)
+    except Exception as ex:       # shrinking is a convenience: the unshrunk failing input stays
+        ck.notes.append('shrink_state: ' + repr(ex)[:200])
+    ck.violations.sort(key=lambda v: (len(json.dumps(v['case'].get('reified', v['case']))), len(json.dumps(v['case'], default=str))))
     ck.oblige('correspondence:checker', 'correspondence', not disagreements,
               json.dumps(disagreements[0], default=str)[:1200] if disagreements else f'{ck.traces_validated} cases agree')
     n_eval = max(1, len(cases))
